@@ -71,4 +71,16 @@ theorem alignedExit_form {g g' : GState} {out : Out} (hs : stepCore cfg g .align
   · rename_i outer rest hf
     exact ⟨outer, _, Or.inr rfl, hf, rfl, rfl⟩
 
+theorem claim_form {g g' : GState} {out : Out} (hs : stepCore cfg g .claim = .ok (g', out)) :
+    g' = { g with s := { g.s with frames := .claim :: g.s.frames } } ∧ cfg.claimable = true := by
+  fs_op hs
+  rename_i hcl
+  exact ⟨rfl, by simpa using hcl⟩
+
+theorem claimEnd_form {g g' : GState} {out : Out} (hs : stepCore cfg g .claimEnd = .ok (g', out)) :
+    ∃ rest, g.s.frames = .claim :: rest ∧ g' = { g with s := { g.s with frames := rest } } := by
+  fs_op hs
+  rename_i rest hf
+  exact ⟨rest, hf, rfl⟩
+
 end Arena.Hist
